@@ -229,6 +229,129 @@ func c03RunNested(dir, version string, maxLen int, nested bool) vs.Verdict {
 	return f.verdict(seq + ": " + strings.Join(evs, ","))
 }
 
+// c03FanOut: notifying methods that address several sessions at once.  dir "server": a Server with two
+// legacy sessions subscribed to one resource; one goroutine calls Server.ResourceUpdated and then, once
+// it has returned, sends a progress notification to each session.  dir "client": a Client with two
+// sessions; one goroutine calls Client.AddRoots and then a tool on each session.  On every session the
+// handler of the fanned-out notification (parked on a gate) finishes before the later message's
+// handler starts.
+func c03FanOut(dir string) vs.Verdict {
+	f := &e1Fail{prefix: "c03 fan-out " + dir}
+	ctx := context.Background()
+	vs.Quiet(true)
+	ctl := vs.NewController()
+	gates := []*vs.Gate{ctl.Gate("0"), ctl.Gate("1")}
+	const uri = "file:///shared"
+	var css []*ClientSession
+	var sss []*ServerSession
+	var srv *Server
+	var cli *Client
+	mkServer := func(i int) *Server {
+		s := NewServer(&Implementation{Name: "srv", Version: "1"}, &ServerOptions{Logger: quietLogger,
+			SubscribeHandler:   func(context.Context, *SubscribeRequest) error { return nil },
+			UnsubscribeHandler: func(context.Context, *UnsubscribeRequest) error { return nil },
+			RootsListChangedHandler: func(context.Context, *RootsListChangedRequest) {
+				vs.Event("start first %d", i)
+				gates[i].Wait()
+				vs.Event("finish first %d", i)
+			}})
+		s.AddResource(&Resource{URI: uri, Name: "shared"}, func(context.Context, *ReadResourceRequest) (*ReadResourceResult, error) {
+			return &ReadResourceResult{}, nil
+		})
+		AddTool(s, &Tool{Name: "t"}, func(ctx context.Context, r *CallToolRequest, in c03Args) (*CallToolResult, any, error) {
+			vs.Event("start second %d", in.K)
+			return &CallToolResult{}, nil, nil
+		})
+		return s
+	}
+	mkClient := func(i int) *Client {
+		return NewClient(&Implementation{Name: "cli", Version: "1"}, &ClientOptions{Logger: quietLogger,
+			ResourceUpdatedHandler: func(context.Context, *ResourceUpdatedNotificationRequest) {
+				vs.Event("start first %d", i)
+				gates[i].Wait()
+				vs.Event("finish first %d", i)
+			},
+			ProgressNotificationHandler: func(ctx context.Context, r *ProgressNotificationClientRequest) {
+				vs.Event("start second %d", i)
+			}})
+	}
+	if dir == "server" {
+		srv = mkServer(0)
+	} else {
+		cli = mkClient(0)
+	}
+	for i := 0; i < 2; i++ {
+		s, c := srv, cli
+		if s == nil {
+			s = mkServer(i)
+		}
+		if c == nil {
+			c = mkClient(i)
+		}
+		ct, st := NewInMemoryTransports()
+		ss, err := s.Connect(ctx, st, nil)
+		if err != nil {
+			ctl.Stop()
+			return vs.Verdict{Bad: "connect failed: " + err.Error(), Sig: "c03 connect-failed"}
+		}
+		cs, err := c.Connect(ctx, ct, &ClientSessionOptions{ProtocolVersion: "2025-06-18"})
+		if err != nil {
+			ctl.Stop()
+			return vs.Verdict{Bad: "connect failed: " + err.Error(), Sig: "c03 connect-failed"}
+		}
+		if dir == "server" {
+			if err := cs.Subscribe(ctx, &SubscribeParams{URI: uri}); err != nil {
+				f.failf("setup", "subscribe: %v", err)
+			}
+		}
+		css, sss = append(css, cs), append(sss, ss)
+	}
+	vs.WaitIdle()
+	vs.Quiet(false)
+	if dir == "server" {
+		if err := srv.ResourceUpdated(ctx, &ResourceUpdatedNotificationParams{URI: uri}); err != nil {
+			f.failf("send-failed", "ResourceUpdated: %v", err)
+		}
+		vs.Event("first returned")
+		for i, ss := range sss {
+			if err := ss.NotifyProgress(ctx, &ProgressNotificationParams{ProgressToken: "p", Progress: float64(i)}); err != nil {
+				f.failf("send-failed", "NotifyProgress: %v", err)
+			}
+		}
+	} else {
+		cli.AddRoots(&Root{URI: "file:///new", Name: "new"})
+		vs.Event("first returned")
+		for i, cs := range css {
+			if _, err := cs.CallTool(ctx, &CallToolParams{Name: "t", Arguments: c03Args{K: i}}); err != nil {
+				f.failf("send-failed", "CallTool: %v", err)
+			}
+		}
+	}
+	vs.Quiet(true)
+	for i := range css {
+		if err := css[i].Ping(ctx, nil); err != nil {
+			f.failf("final-ping", "final ping: %v", err)
+		}
+	}
+	for i := range css {
+		css[i].Close()
+		sss[i].Wait()
+	}
+	ctl.Stop()
+	vs.Quiet(false)
+	evs := vs.Events()
+	for i := 0; i < 2; i++ {
+		fin, st := evIndex(evs, fmt.Sprintf("finish first %d", i)), evIndex(evs, fmt.Sprintf("start second %d", i))
+		switch {
+		case fin < 0 || st < 0:
+			f.failf("handler-not-run", "session %d: a handler never ran: %s", i, evJoin(evs))
+		case st < fin:
+			f.failf("later-message-overtakes-fanned-out-notification", "session %d: the handler of the message sent after the notifying method had returned started before the notification's handler finished: %s", i, evJoin(evs))
+		}
+	}
+	return f.verdict(strings.Join(evs, ","))
+}
+
 // c03Concurrent: ordinary calls may run concurrently - the first tool call's handler
 // only returns once the second call's handler has started; a dispatcher that
 // serialised calls would deadlock here.
@@ -597,6 +720,8 @@ func TestVerifC03(t *testing.T) {
 		vs.E1(t, "inmem/s2c/2025-06-18", b, vs.Options{}, func() vs.Verdict { return c03Run("s2c", "2025-06-18", 3) }),
 		vs.E1(t, "inmem/c2s/nested-calls-in-notification-handlers", b, vs.Options{}, func() vs.Verdict { return c03RunNested("c2s", "2025-06-18", env.Pick(2, 3), true) }),
 		vs.E1(t, "inmem/s2c/nested-calls-in-notification-handlers", b, vs.Options{}, func() vs.Verdict { return c03RunNested("s2c", "2025-06-18", env.Pick(2, 3), true) }),
+		vs.E1(t, "inmem/fan-out-to-two-sessions/server", b, vs.Options{}, func() vs.Verdict { return c03FanOut("server") }),
+		vs.E1(t, "inmem/fan-out-to-two-sessions/client", b, vs.Options{}, func() vs.Verdict { return c03FanOut("client") }),
 		vs.E1(t, "inmem/concurrent-calls", b, vs.Options{}, func() vs.Verdict { return c03Concurrent("2025-06-18") }),
 		vs.E1(t, "http/stateful", b, vs.Options{}, func() vs.Verdict { return c03HTTP("stateful") }),
 		vs.E1(t, "http/stateless-legacy", b, vs.Options{}, func() vs.Verdict { return c03HTTP("stateless-legacy") }),
